@@ -19,7 +19,7 @@ RULE = ("postconditions on PolygonTensor.area, Polygon.centroid, Simplex.volume,
         "in any order). Workload: polygon zoo, simplices, cuboids and regular polygons at every position and orientation in 2D and 3D (planes not "
         "through the origin, not z = const), all 2n re-orderings as positive equality cases, swapped / moved vertices as negative ones, "
         "invariance under random isometries. Non-trivial: vertices not at the origin / axis aligned unit shapes; distinct by digest."
-        " Also: regular polygons moved after their measures were read, integer homogeneous vertices with w != 1 (fractional coordinates in an integer array) for simplices of every dimension; `==` of polygon / segment collections whose members are written from another start vertex, in the other orientation or listed in another order (a False is wrong whenever one common rotation / reversal maps every member onto its partner); area is monitored on every class of the polytope tree, with quadrilaterals that reach the class Rectangle through the library (collection elements, faces of a frustum, sheared rectangles).")
+        " Also: regular polygons moved after their measures were read, integer homogeneous vertices with w != 1 (fractional coordinates in an integer array) for simplices of every dimension; `==` of polygon / segment collections whose members are written from another start vertex, in the other orientation or listed in another order (a False is wrong whenever one common rotation / reversal maps every member onto its partner); area is monitored on every class of the polytope tree, with quadrilaterals that reach the class Rectangle through the library (collection elements, faces of a frustum, sheared rectangles); simplices with a repeated vertex (volume 0).")
 SHARDS = (8, 16)
 REQUIRED = ["area", "centroid", "volume", "length", "midpoint", "circumcenter", "regular", "polyhedron.area", "eq", "isometry"]
 ASSUMPTIONS = ["vertices at infinity and complex vertices are not judged"]
